@@ -345,7 +345,7 @@ ES_FAMS = {
              ("{1,2,3}", "{7,8}", 5, 1, '{"overlap","peer","close","heartbeat","abort","window","closewin","ctimeout","cwindow"}')),
     # data requests as goroutines of their own (accept | packet by packet | end), against polls, closes, heartbeat, upgrade
     "dreq": (("{1}", "{7,8}", 2, 1, '{"dreq","close","overlap","abort","closewin","heartbeat"}'),
-             ("{1,2}", "{7,8,9}", 3, 1, '{"dreq","pt","posts3","close","overlap","abort","closewin","heartbeat","upgrade","ctimeout"}')),
+             ("{1}", "{7,8,9}", 2, 1, '{"dreq","pt","posts3","close","overlap","abort","closewin","heartbeat","ctimeout"}')),
 }
 # every deviation must make TLC find its invariant violated (the invariants are not vacuous, the model is sensitive)
 ES_DEVS = [
@@ -438,7 +438,7 @@ ES_LIVE = {
     "upg": (("{1}", 3, '{"upgrade","window","close","heartbeat","ctimeout","closewin","late","nohist"}'),
             ("{1,2}", 3, '{"upgrade","window","close","heartbeat","ctimeout","closewin","late","nohist"}')),
     "dreq": (("{}", 1, '{"dreq","close","overlap","abort","closewin","ctimeout","nohist"}'),
-             ("{1}", 3, '{"dreq","pt","close","overlap","abort","closewin","ctimeout","heartbeat","nohist"}')),
+             ("{1}", 2, '{"dreq","close","overlap","abort","closewin","ctimeout","nohist"}')),
 }
 ES_LIVE_DEVS = [
     ("TimeoutOnlyOpen", "L_C12_ClosingCloses", 2, '{"close","heartbeat","ctimeout","window","nohist"}'),
